@@ -28,6 +28,8 @@ EXPLANATION = (
     "file.  Declined: fault injection at the k-th write (OS behaviour); byte-exactness of the untouched file "
     "follows from R1 given POSIX open semantics (assumption)."
 )
+TECHNIQUE += '; interprocedural must-pass summaries of API pre-flight helpers'
+EXPLANATION += ' R1/R3 accept the required-attribute check and the prepare_dump dispatch inside an API helper only if every normal exit of the helper passes through them.'
 TRUSTED = [
     "CPython ast parser", "open(name, 'w') is the only truncation point (POSIX)",
     "with-statement closes the file on every exit", "whitelisted total externals do not raise",
